@@ -206,6 +206,11 @@ template <class Mesh> void HistRun<Mesh>::op_roundtrip(R &r, const Op &q) {
         bool tc = q2.a[2] & 1, bu = q2.a[2] & 2;
         Mesh same; load_and_compare(same, tc, bu, "same kernel");
         if (KID != 0) { PolyMesh p; load_and_compare(p, tc, bu, "into polyhedral"); }
+        {   // "into every compatible mesh type": a polyhedral mesh whose content is tetrahedral / hexahedral
+            int tt = expected_topo_type(r);
+            if (KID == 0 && tt == 1) { TetMesh t; load_and_compare(t, tc, bu, "into tetrahedral"); st.add("probe_cross_type_read_ascii"); }
+            if (KID == 0 && tt == 2 && !tc) { HexMesh h; load_and_compare(h, tc, bu, "into hexahedral"); st.add("probe_cross_type_read_ascii"); }
+        }
         // second round trip is a fixed point
         std::string img2; WriteFaults wf2;
         save_ascii(same, img2, wf2);
